@@ -157,6 +157,9 @@ func (g *G) Chance(pct int) bool {
 }
 func (g *G) Pick(s []string) string { return s[g.Int(0, len(s)-1)] }
 
+// pickList picks one of several string lists.
+func (g *G) pickList(ls [][]string) []string { return ls[g.Int(0, len(ls)-1)] }
+
 // excluded reports whether finding id is open; it counts the steering.
 func (g *G) excluded(id string) bool {
 	if g.Open[id] {
@@ -274,8 +277,20 @@ func (g *G) genDeps() {
 	used := map[string]bool{}
 	sanit := map[string]bool{}
 	repl := strings.NewReplacer("go-", "", "-go", "", "-", "", "_", "", ".", "", "@", "", "+", "", "~", "")
+	// now and then: three packages of one name whose paths are equal after sanitising (last-resort numbered aliases)
+	var forced []string
+	if g.P.Conflict && g.Chance(10) && !g.Open["F-A"] {
+		forced = append(forced, g.pickList([][]string{{"go-lib", "lib", "lib-go"}, {"go-x", "x", "x-go"}, {"b-c/x", "bc/x", "b_c/x"}})...)
+		if n < 4 {
+			n = 4
+		}
+		g.label("import:sanitise-equal-triple")
+	}
 	for len(g.deps) < n {
 		dir := g.Pick(pool)
+		if len(forced) > 0 {
+			dir, forced = forced[0], forced[1:]
+		}
 		if used[dir] {
 			dir = fmt.Sprintf("z%d/%s", len(g.deps), dir)
 		}
